@@ -151,6 +151,8 @@ impl Consist {
         };
         let _ = consist.n_res_equipped();
         consist.set_save_interval(save_interval);
+        // as `init` does after loading, so that a new consist can brake on its first step
+        consist.set_pwr_dyn_brake_max();
         consist
     }
 
@@ -423,6 +425,7 @@ impl Default for Consist {
         };
         // ensure propagation to nested components
         consist.set_save_interval(Some(1));
+        consist.set_pwr_dyn_brake_max();
         let _mass = consist.mass().unwrap();
         consist
     }
